@@ -124,9 +124,20 @@ def run_lines(cmd, inp=None, cwd=None):
     return p.returncode, p.stdout.split('\n'), p.stderr
 
 
-def canon_report(line):
+def nl_objectives(path):
+    """number of objectives the driver delivers for this NL model: header line 2 = `vars cons objs …`;
+    with the default options (objno=1, no obj:multi) at most the first objective is used"""
+    hdr = open(path).read().split('\n')[1].split()
+    return min(int(hdr[2]), 1)
+
+
+def canon_report(line, expected_nobj):
     """harness `report c n p d | objShown=… code=… nx=… ny=… hs=… hsobj=… nobjpost=…` ->
-       (op line for the model, canonical observation, dict)"""
+       (op line for the model, canonical observation, dict).
+       The model's input `nObj` is NOT what GetSolution() returned but what it must return:
+       FlatBackend's postsolve delivers one objective value per objective of the NL model, whatever the
+       solver returned and whether or not primal/dual vectors exist.  The observed size is only compared
+       with that expectation by the caller."""
     head, obs = line.split(' | ', 1)
     _, c, n, p, d = head.split(' ')
     if obs.startswith('sol-unreadable'):
@@ -136,7 +147,8 @@ def canon_report(line):
          'objShown': int(kv['objShown']), 'objValText': int(kv['objValText']), 'written': int(kv['code']), 'nx': int(kv['nx']), 'ny': int(kv['ny']),
          'hs': int(kv['hs']), 'hsobj': kv['hsobj'], 'nobj': int(kv['nobjpost']), 'status': int(kv['status']),
          'samemsg': int(kv['samemsg']), 'objno': int(kv['objno']), 'rc': int(kv['rc'])}
-    op = 'report %d %d %d %d' % (o['code'], o['nobj'], o['primal'], o['dual'])
+    o['nobj_expected'] = expected_nobj
+    op = 'report %d %d %d %d' % (o['code'], expected_nobj, o['primal'], o['dual'])
     can = '%s | objShown=%d code=%d primal=%d dual=%d objval=%d' % (
         op, o['objShown'], o['written'], 1 if o['nx'] > 0 else 0, 1 if o['ny'] > 0 else 0, 0 if o['hsobj'] == 'nan' else 1)
     return op, can, o
@@ -323,8 +335,9 @@ def run(ck):
             disagree('doctable', 'doctable', sorted(doc.rows), sorted(drows))
 
     # ------------------------------------------------------------ complete driver runs
-    # tiny.nl has one objective, noobj.nl none: FlatBackend's postsolve always returns one value per model
-    # objective, so "objective value present/absent" is decided by the model; both are enumerated completely
+    # tiny.nl has one objective, noobj.nl none.  Documented postsolve behaviour: one objective value per model
+    # objective.  This is an *expectation* checked on every run (observed sol.objvals.size() vs the NL header),
+    # never an input: the model and the oracle are driven by the NL model's objective count.
     models = [('tiny', []), ('noobj', [])]
     if not quick:
         models += [('tiny', ['sol:chk:mode=0']), ('mip2', []), ('twoobj', [])]
@@ -360,8 +373,9 @@ def run(ck):
                              {'model': mn, 'options': mopts, 'first_missing': ops[len(lines)] if len(lines) < len(ops) else None,
                               'replay': 'echo "<code> <nobj> <primal> <dual>" | h_status report corpus/C10/%s %s' % (mn, ' '.join(mopts))}, found_input=False)
         mops, cans, obs = [], [], []
+        nobj_model = nl_objectives(os.path.join(VERIF, 'corpus', 'C10', mn + '.nl'))
         for l in lines:
-            op, can, o = canon_report(l)
+            op, can, o = canon_report(l, nobj_model)
             if op is None:
                 ck.add_violation('report:no-sol-file', 'no readable .sol file for scripted answer %s on %s' % (o, mn), {'answer': o, 'model': mn}, found_input=True)
                 continue
@@ -372,14 +386,18 @@ def run(ck):
             hist['report_runs'] += 1
             hist['report_objShown'] += o['objShown']
             k = doc.cls(o['code'])
-            key = '%s/nobj%d' % (k, min(o['nobj'], 2))
+            key = '%s/nobj%d' % (k, min(nobj_model, 2))
             hist['report_by_class'][key] = hist['report_by_class'].get(key, 0) + 1
-            distinct.add((mn, tuple(mopts), o['code'], o['nobj'], o['primal'], o['dual']))
+            distinct.add((mn, tuple(mopts), o['code'], o['nobj_in'], o['primal'], o['dual']))
             if m is not None and (i >= len(m) or m[i] != can):
                 disagree('report', mops[i], can, m[i] if i < len(m) else None)
             # oracle on the real run
-            want_shown = (k in CANDIDATE) and o['nobj'] > 0
-            tag = (mn, tuple(mopts), o['nobj'], o['primal'], o['dual'])
+            # independent of what GetSolution() returned: shown <=> candidate code and the NL model has an objective,
+            # for every primal/dual presence combination
+            want_shown = (k in CANDIDATE) and nobj_model > 0
+            tag = (mn, tuple(mopts), o['nobj_in'], o['primal'], o['dual'])
+            if o['nobj'] != nobj_model:
+                rep_fail.setdefault('objvals:size-differs-from-model-objectives', []).append((o['code'], tag))
             if o['objShown'] and not want_shown:
                 rep_fail.setdefault('objective:shown-without-candidate', []).append((o['code'], tag))
             if want_shown and not o['objShown']:
@@ -399,8 +417,8 @@ def run(ck):
         for a, b in intervals(by_code.keys()):
             mn, mopts, n, p, d = by_code[a]
             ck.add_violation('%s:%d..%d' % (kind, a, b),
-                             '%s for reported solve codes %d..%d (documented class %s): e.g. scripted answer code=%d, %d objective value(s), primal=%d dual=%d on corpus/C10/%s.nl' %
-                             (kind, a, b, doc.cls(a), a, n, p, d, mn),
+                             '%s for reported solve codes %d..%d (documented class %s): e.g. scripted answer code=%d, %d objective value(s) from the solver, primal=%d dual=%d on corpus/C10/%s.nl (%d objective(s) in the model)' %
+                             (kind, a, b, doc.cls(a), a, n, p, d, mn, nl_objectives(os.path.join(VERIF, 'corpus', 'C10', mn + '.nl'))),
                              {'kind': kind, 'codes': [a, b], 'example': {'code': a, 'nobj': n, 'primal': p, 'dual': d, 'model': mn, 'options': list(mopts)},
                               'replay': 'build harness/h_status.cc (checks/c10.py:build_harness); echo "%d %d %d %d" | h_status report corpus/C10/%s %s; inspect %s.sol' % (a, n, p, d, mn, ' '.join(mopts), mn)},
                              found_input=True)
@@ -421,7 +439,7 @@ def run(ck):
         shutil.copy(os.path.join(VERIF, 'corpus', 'C10', 'tiny.nl'), os.path.join(d, 'm.nl'))
         ops = ['%d 1 %d %d' % (c, c % 2, (c // 2) % 2) for c in range(-199, 1000)]
         p = subprocess.run([exe_dbg, 'report', os.path.join(d, 'm')], input='\n'.join(ops) + '\n', capture_output=True, text=True, cwd=d)
-        dl = [canon_report(l)[1] for l in p.stdout.split('\n') if l.startswith('report ')]
+        dl = [canon_report(l, 1)[1] for l in p.stdout.split('\n') if l.startswith('report ')]
         mm = model([x.split(' | ')[0] for x in dl if x])
         corr['report_assert_build'] = len(dl)
         if p.returncode != 0 or len(dl) != len(ops):
